@@ -42,6 +42,12 @@ def _shifted_uniform(x, y, z, *, B, cx, cy):
     return np.stack([-B * y / 2 + cx, B * x / 2 + cy, np.zeros_like(x)], axis=1)
 
 
+def _tilted_uniform(x, y, z, *, Bz, Bx):
+    """Tilted uniform field (Bx, 0, Bz) [field_units]: A = (-Bz y/2, Bz x/2, Bx y) - a vector potential with a z component."""
+    x = np.atleast_1d(x); y = np.atleast_1d(y)
+    return np.stack([-Bz * y / 2, Bz * x / 2, Bx * y], axis=1)
+
+
 def _osc_scale(x, y, z, *, t, w, lo, hi):
     return lo + (hi - lo) * 0.5 * (1 - math.cos(w * t))
 
@@ -140,6 +146,8 @@ def build_drive(d, device, options):
         avp = ConstantField(A["B"], field_units=fu, length_units=lu)
     elif k == "shifted":
         avp = tdgl.Parameter(_shifted_uniform, B=float(A["B"]), cx=float(A["c"][0]), cy=float(A["c"][1]))
+    elif k == "tilted":
+        avp = tdgl.Parameter(_tilted_uniform, Bz=float(A["B"]), Bx=float(A.get("Bx", 2.0 * A["B"])))
     elif k == "ramp":
         avp = LinearRamp(tmin=A["tmin"], tmax=A["tmax"], initial=A.get("initial", 0.0), final=A.get("final", 1.0)) * ConstantField(A["B"], field_units=fu, length_units=lu)
     elif k == "ramp_left":
